@@ -345,6 +345,37 @@ static void containment_and_accuracy(unsigned long long& unit)
 				ld se = fmax * vol / 2 / sqrtl(20000.0L);
 				if(!(fabsl(sh->value - ex) <= 6 * se)) fail("frontend", key, "estimate_outside_six_standard_errors", "estimate " + mc::dec(sh->value) + " exact " + mc::dec((double)ex));
 			}
+	// containment with many samples in narrow boxes far from the origin (a point computed as a rounded combination of the limits can
+	// land one unit in the last place outside; Miser samples in repeatedly bisected sub-boxes)
+	for(const char* m : {"Monte-Carlo", "Vegas", "Miser"})
+		for(int dim = 1; dim <= 3; dim++)
+			for(double off : {1e7, 1e8, -1e8})
+			{
+				if(!mc::mine(unit++)) continue;
+				V region(2 * dim);
+				for(int j = 0; j < dim; j++) { region[j] = off + 3 * j; region[dim + j] = region[j] + 1e-3; }
+				int budget = mc::thorough() ? 4000000 : 1000000;
+				std::string key = std::string(m) + ",dim=" + std::to_string(dim) + ",far_offset=" + mc::dec(off) + ",n=" + std::to_string(budget);
+				sh->died = 1;
+				std::string ms = m;
+				bool ok = in_child([&](Digest*) {
+					long long evals = 0, outside = 0;
+					auto f = [&](V& x, const double) {
+						evals++;
+						for(int j = 0; j < dim; j++) if(!(x[j] >= region[j] && x[j] <= region[dim + j])) { outside++; break; }
+						return 1.0 + (x[0] - region[0]);
+					};
+					g_seed = 7;
+					V r = region;
+					double v = Integrate_MC(f, r, budget, ms);
+					*sh = Res{v, evals, outside, 0, 0};
+				}, nullptr, 300);
+				mc::count("evaluations", 1);
+				mc::count("transitions", 1);
+				if(!ok || sh->died) { fail("accuracy", key, "terminated_process", "a valid integration ended the process or timed out"); continue; }
+				mc::count("integrand_evaluations", sh->evals);
+				if(sh->outside) fail("accuracy", key, "sampled_outside_region", std::to_string(sh->outside) + " of " + std::to_string(sh->evals) + " sample points outside the hyper-rectangle");
+			}
 	// the spherical front end with the Monte-Carlo method names: shells that do not start at the origin, full and partial angular ranges;
 	// every vector handed to the integrand lies in the requested shell and cone, the value is within six standard errors
 	for(const char* m : {"Monte-Carlo", "Vegas", "Miser"})
